@@ -102,10 +102,11 @@ class _BaseLSML(MahalanobisMixin):
     dcds = np.sum(vcd.dot(metric) * vcd, axis=1)
     violations = dabs > dcds
     # TODO: vectorize
-    for vab, dab, vcd, dcd in zip(vab[violations], dabs[violations],
-                                  vcd[violations], dcds[violations]):
-      dMetric += ((1 - np.sqrt(dcd / dab)) * np.outer(vab, vab) +
-                  (1 - np.sqrt(dab / dcd)) * np.outer(vcd, vcd))
+    for vab, dab, vcd, dcd, w in zip(vab[violations], dabs[violations],
+                                     vcd[violations], dcds[violations],
+                                     self.w_[violations]):
+      dMetric += w * ((1 - np.sqrt(dcd / dab)) * np.outer(vab, vab) +
+                      (1 - np.sqrt(dab / dcd)) * np.outer(vcd, vcd))
     return dMetric
 
 
